@@ -481,4 +481,23 @@ theorem frame_origin0_none (nd : Nat) (coords : List (List Rat)) (r : List Rat) 
     (frame nd coords none r none).origin0 = (List.range nd).map (fun k => minQ (col 0 k coords)) := rfl
 
 
+
+/-! ## exact-key lookup in an association list without duplicate keys -/
+theorem find_key_of_mem {β : Type} (l : List (String × β)) (hn : (l.map (·.1)).Nodup) (k : String) (v : β)
+    (hm : (k, v) ∈ l) : l.find? (fun e => e.1 == k) = some (k, v) := by
+  induction l with
+  | nil => simp at hm
+  | cons e t ih =>
+    rw [List.map_cons, List.nodup_cons] at hn
+    rcases List.mem_cons.mp hm with h | h
+    · subst h; simp
+    · have hne : (e.1 == k) = false := by
+        apply beq_false_of_ne
+        intro he
+        apply hn.1
+        rw [he]
+        exact List.mem_map.mpr ⟨(k, v), h, rfl⟩
+      rw [List.find?_cons, hne]
+      exact ih hn.2 h
+
 end Pm.C10
